@@ -76,8 +76,29 @@ def _twin(spec, which=0):
         # a scalar whose constraints interact: the length limit applies to the case-transformed text
         dict(base, kind="str", key="zzcase", opts={"transform_case": ["upper", "lower"][which % 2], "max_len": 2 + which % 3, "transform_strip": [None, True, "x"][which % 3]}),
     ]
+    # a plain nested section (two levels, nothing required): options of the generated command line that address one of its
+    # fields while its siblings hold non-default values
+    sub = {"kind": "schema", "key": "zzsec", "req": False, "children": [
+        dict(base, kind="port", key="port"), dict(base, kind="host", key="host", opts={"allow_ipv4": True}), dict(base, kind="bool", key="on"),
+        {"kind": "schema", "key": "tls", "req": False, "children": [dict(base, kind="int", key="ver", opts={"min": 1, "max": 3}), dict(base, kind="str", key="cert")]},
+    ]}
+    extra.append(sub)
     keep = [c for c in spec["children"] if not c["key"].startswith("zz")]
-    return dict(spec, children=keep + extra)
+    out = dict(spec, children=keep + extra)
+    if which % 3 == 0:
+        out = _no_required(out)  # every third schema has no required field at all (a tree load then ends in a passing validate())
+    return out
+
+
+def _no_required(node):
+    kids = []
+    for c in node["children"]:
+        if "children" in c:
+            c = _no_required(c)
+        if c.get("req"):
+            c = dict(c, req=False)
+        kids.append(c)
+    return dict(node, children=kids)
 
 
 def strategy(tier):
@@ -100,7 +121,12 @@ def strategy(tier):
         ci = next(i for i, (p, nd) in enumerate(leaves) if p == ("zzcase",))
         grow = st.tuples(st.sampled_from(["\u00df", "\ufb01", "\u0130", "\u0149", "a\u00df", "\u00dfx"]), st.integers(1, 4)).map(lambda t: (t[0] * t[1])[:5])
         expand = st.fixed_dictionaries({"op": st.sampled_from(["setattr", "setitem"]), "leaf": st.just(ci), "value": grow})
-        return st.fixed_dictionaries({"spec": st.just(spec), "ops": st.lists(ops.weighted((6, base), (2, transfer), (1, expand)), min_size=2, max_size=n)})
+        sec = {p: i for i, (p, nd) in enumerate(leaves) if p[0] == "zzsec"}
+        fill = st.sampled_from([(("zzsec", "host"), "www.example.org"), (("zzsec", "tls", "cert"), "cert.pem"), (("zzsec", "tls", "ver"), 3), (("zzsec", "port"), 8443), (("zzsec", "on"), True)]).map(
+            lambda t: {"op": "setitem", "leaf": sec[t[0]], "value": t[1]})
+        over = st.lists(st.sampled_from([(("zzsec", "port"), "443"), (("zzsec", "tls", "ver"), "2"), (("zzsec", "host"), "h.example"), (("zzsec", "on"), True), (("zzsec", "tls", "cert"), "c2")]), min_size=1, max_size=2).map(
+            lambda l: {"op": "cmdline", "args": [(sec[p], v) for p, v in l], "ignore": None})
+        return st.fixed_dictionaries({"spec": st.just(spec), "ops": st.lists(ops.weighted((12, base), (4, transfer), (2, expand), (2, fill), (2, over)), min_size=2, max_size=n)})
     return st.tuples(worlds.schema_spec(tier), st.integers(0, len(STRICT_ITEMS) - 1)).map(lambda t: _twin(t[0], t[1])).flatmap(hist)
 
 
@@ -234,6 +260,11 @@ def run_case(case, R):
                             got = worlds.get_path(cfg, path)
                             R.check(ops.read_matches(node, got, verdict), "read-back", "cmdline:" + node["kind"],
                                     lambda: "command line %r: %s reads back %r, normal form %r" % (info["argv"], ".".join(path), got, verdict[1]))
+                    # ... and nothing but the supplied fields changes (siblings of a nested option included)
+                    b2, a2 = before, worlds.snapshot(cfg, cc)
+                    for path in final:
+                        b2, a2 = _without(b2, path), _without(a2, path)
+                    R.check(b2 == a2, "collateral", "cmdline", lambda: "command line %r changed fields it does not name: %s" % (info["argv"], worlds.diff(b2, a2)))
             worlds.sweep(world, cfg, R, name + ("" if out.kind == "ok" else ":rejected"))
 
         if accepted_nonattr and rejected and has_container:
